@@ -73,6 +73,7 @@ func threadBlocks(fn *ssa.Function) map[*ssa.BasicBlock]bool {
 		if depth > 4 {
 			return
 		}
+		v = loadSource(v)
 		switch x := v.(type) {
 		case *ssa.UnOp:
 			if x.Op == token.NOT {
@@ -98,7 +99,8 @@ func threadBlocks(fn *ssa.Function) map[*ssa.BasicBlock]bool {
 			for _, e := range x.Edges {
 				if p, isPhi := e.(*ssa.Phi); isPhi && p != x {
 					visit(p, depth+1)
-				} else if _, isC := e.(*ssa.Const); !isC && known && nilness(e, nil, 0) == 0 && nilable(e) && trackedIndex(e) < 0 {
+				}
+				if _, isC := e.(*ssa.Const); !isC && known && nilness(e, nil, 0) == 0 && nilable(e) && trackedIndex(e) < 0 {
 					trackedVals[fn] = append(trackedVals[fn], e)
 				}
 			}
@@ -121,6 +123,7 @@ func nilness(v ssa.Value, env phiEnv, depth int) int {
 	if depth > 6 {
 		return 0
 	}
+	v = loadSource(v)
 	switch x := v.(type) {
 	case *ssa.Const:
 		if x.Value == nil {
@@ -164,6 +167,7 @@ func resolveConst(v ssa.Value, env phiEnv, depth int) *ssa.Const {
 	if depth > 6 {
 		return nil
 	}
+	v = loadSource(v)
 	switch x := v.(type) {
 	case *ssa.Const:
 		return x
@@ -182,6 +186,7 @@ func evalUnder(v ssa.Value, env phiEnv, depth int) (val, known bool) {
 	if depth > 6 || len(env) == 0 {
 		return false, false
 	}
+	v = loadSource(v)
 	switch x := v.(type) {
 	case *ssa.Const:
 		if x.Value != nil && x.Value.Kind() == constant.Bool {
@@ -226,6 +231,7 @@ func mentionsPhiOf(v ssa.Value, env phiEnv, depth int) bool {
 	if depth > 4 {
 		return false
 	}
+	v = loadSource(v)
 	switch x := v.(type) {
 	case *ssa.Phi:
 		_, ok := env[x.Block().Index]
@@ -331,4 +337,29 @@ func nilable(v ssa.Value) bool {
 		return true
 	}
 	return false
+}
+
+// loadSource: a load from a local variable cell directly after the store that filled it (same block, no call and no
+// other store to the cell in between) is the stored value. go/ssa keeps a variable in a cell when a closure captures it.
+func loadSource(v ssa.Value) ssa.Value {
+	u, ok := v.(*ssa.UnOp)
+	if !ok || u.Op != token.MUL {
+		return v
+	}
+	cell, ok := u.X.(*ssa.Alloc)
+	if !ok || u.Block() == nil {
+		return v
+	}
+	is := u.Block().Instrs
+	for i := idxIn(u) - 1; i >= 0; i-- {
+		switch x := is[i].(type) {
+		case *ssa.Store:
+			if x.Addr == ssa.Value(cell) {
+				return x.Val
+			}
+		case ssa.CallInstruction:
+			return v
+		}
+	}
+	return v
 }
